@@ -9,6 +9,7 @@ package main
 
 import (
 	"fmt"
+	"github.com/ethereum/go-ethereum/metrics"
 	"math/rand"
 	"sync"
 	"sync/atomic"
@@ -284,6 +285,13 @@ func run(r *lib.Run) {
 	for i := 0; i < nSerial; i++ {
 		wg.Add(1)
 		sem <- struct{}{}
+		if i == nSerial/2 && !metrics.Enabled() {
+			// the second half of the run (and the concurrent mode) executes the metrics-gated branches of the table, the
+			// way a node started with --metrics does: switched on at run time, after package initialisation. The table
+			// keeps no per-instance metrics objects, so this is safe while other tables exist.
+			metrics.Enable()
+			r.Count("metrics_enabled_from_serial_history", i)
+		}
 		go func(i int) { defer wg.Done(); defer func() { <-sem }(); serial(r, i, steps, agg) }(i)
 	}
 	wg.Wait()
